@@ -190,6 +190,18 @@ def run(ctx):
             ctx.sample({'input': case.text[:200], 'parts': detail.get('parts'), 'valuations_judged': judged,
                         'verdict': kind or ('ValueError (input false on the whole grid)' if how == 'valueerror'
                                             else 'conjunction of parts equals input')})
+        if kind is None and how == 'ok' and ctx.evaluations % 3 == 0:
+            # history: split_and on a tree derived (but()) from the one just split
+            import types
+            for label, h2 in S.derive_with_but(case.h, 1):
+                k2, d2, n2, j2, sk2, how2 = judge(types.SimpleNamespace(h=h2), envs)
+                ctx.count('derived_judged')
+                ctx.count('valuations_judged', j2)
+                if k2 is not None:
+                    w2 = {'input': case.text, 'level': case.level, 'history': f'split_and(input); input.but(...) [{label}] = {str(h2)[:200]}; split_and(derived)'}
+                    w2.update(d2)
+                    ctx.violation(k2, w2, feats | {'shape:derived-with-but'})
+                    return
         if kind is None:
             return
         w = {'input': case.text, 'level': case.level}
